@@ -80,3 +80,53 @@ func ruleSReset(c *Ctx) {
 	c.MinInstances("S-reset", nIdx, 2)
 	c.Covered["S-reset:lastCodeSep_stores"] = nSep
 }
+
+// S-own: who may store the thread fields that trusted index arguments rely on. The table is
+// the set of writers confirmed by reading; a new writer must be reviewed against the trusted
+// reasons in trusted_sites.json that cite "not written during execution".
+var threadFieldWriters = map[string][]string{
+	"tx":          {"apply"},
+	"inputIdx":    {"apply"},
+	"prevOutput":  {"apply"},
+	"cfg":         {"apply", "createThread"},
+	"flags":       {"SetState", "apply"},
+	"scripts":     {"SetState", "Step", "apply"},
+	"scriptIdx":   {"SetState", "Step", "apply", "shiftScript"},
+	"scriptOff":   {"SetState", "Step", "shiftScript"},
+	"lastCodeSep": {"SetState", "Step", "opcodeCodeSeparator", "shiftScript"},
+}
+
+func ruleSOwn(c *Ctx) {
+	got := map[string]map[string]bool{}
+	pos := map[string]token.Pos{}
+	for _, fn := range pkgFunctions(c.P, interpPkg) {
+		for _, b := range fn.Blocks {
+			for _, ins := range b.Instrs {
+				st, ok := ins.(*ssa.Store)
+				if !ok {
+					continue
+				}
+				fa, ok := st.Addr.(*ssa.FieldAddr)
+				if !ok || namedOf(fa.X.Type()) != "thread" {
+					continue
+				}
+				f := fieldName(fa.X.Type(), fa.Field)
+				if _, tracked := threadFieldWriters[f]; !tracked {
+					continue
+				}
+				if got[f] == nil {
+					got[f] = map[string]bool{}
+				}
+				got[f][fn.Name()] = true
+				pos[f+"/"+fn.Name()] = st.Pos()
+			}
+		}
+	}
+	for f, allowed := range threadFieldWriters {
+		al := setOf(allowed...)
+		for w := range got[f] {
+			c.Check(al[w], "S-own", "thread."+f+"/"+w, pos[f+"/"+w], "thread."+f+" is written by a function of its confirmed writer set", "thread."+f+" is now also written by "+w+": index and conversion arguments that rely on this field being fixed during execution (trusted_sites.json) no longer hold without review")
+		}
+	}
+	c.MinInstances("S-own", len(got), len(threadFieldWriters))
+}
